@@ -41,7 +41,7 @@ def model_input(cert, root_pub65):
     bymap = {}
     for e in els:
         bymap[e["name"]] = e
-    links, values = {}, {}
+    links, values, facts = {}, {}, {}
     for e in bymap.values():
         certifier = e["signed_by"]
         if certifier == "root":
@@ -56,11 +56,12 @@ def model_input(cert, root_pub65):
         else:
             continue
         links["%s|%s" % (e["name"], cname)] = certgen.link_valid(e, cpub)
+        facts["%s|%s" % (e["name"], cname)] = certgen.link_facts(e, cpub)
         values[e["name"]] = {"value": certgen.EXTRACT[e["name"]](bytes.fromhex(e["message"])).hex(),
                              "tweak": e.get("tweak")}
     return {"root": "root", "targets": cert["targets"],
             "elements": [{"name": e["name"], "signed_by": e["signed_by"]} for e in els],
-            "links": links, "values": values}
+            "links": links, "facts": facts, "values": values}
 
 
 def corrupt(rng, cert, root_sk):
